@@ -3,6 +3,9 @@ from props import records
 
 
 def run(ses):
+    from pyvc import frame as _frame
+
+    _frame.purity_obligation(ses)
     records.check_unit(ses, "volume", ["table", "frame"])
     from props import analyses
 
